@@ -142,11 +142,10 @@ def plainChecked (H : HashFn) (D : Decomp) (h : Hdr) (f : Bytes) (dict : Option 
   let p ← if h.compType = 0 then some st else D st dict
   if p.length ≠ c.len then none else some p
 
-/-- the content of the file: every chunk verified, the whole-data checksum verified (not under
+/-- the content found behind a header, whichever identifier it carries: every chunk verified, the whole-data checksum verified (not under
 the uncompressed-source flag, as the format says), data chunks concatenated in order -/
-def decode (H : HashFn) (D : Decomp) (f : Bytes) : Option Bytes := do
+def decodeAny (H : HashFn) (D : Decomp) (f : Bytes) : Option Bytes := do
   let h ← parse H f
-  if h.detached then none else
   let body ← slice f (h.lead + h.headerLen) h.dataLen
   if h.flags / 4 % 2 = 0 then
     let dd ← H h.hashType body
@@ -158,5 +157,10 @@ def decode (H : HashFn) (D : Decomp) (f : Bytes) : Option Bytes := do
     let dict := if d.len = 0 then none else some dictPlain
     let parts ← rest.mapM (plainChecked H D h f dict)
     some parts.flatten
+
+/-- the content of a FILE: a detached header (identifier `\0ZHR1`) has none -/
+def decode (H : HashFn) (D : Decomp) (f : Bytes) : Option Bytes := do
+  let h ← parse H f
+  if h.detached then none else decodeAny H D f
 
 end Zck.Format
